@@ -330,6 +330,21 @@ def CrossSpec (c δ : K) (Z : List (K × K)) (FE : Table) (N : List Nat) (faces 
 instance (c δ : K) (Z FE N faces) : Decidable (CrossSpec c δ Z FE N faces) := by
   unfold CrossSpec; infer_instance
 
+/-- end nodes strictly on opposite sides of the parallel (the property's own words, no margin) -/
+def strictlyOpposite (c : K) (z : K × K) : Bool :=
+  (decide (z.1 < c) && decide (c < z.2)) || (decide (z.2 < c) && decide (c < z.1))
+
+/-- the exact clause, judged whenever the query's `z` and the grid's node `z` are the very doubles the
+    implementation compares (an end node exactly ON the parallel is on neither side): a face is selected
+    iff one of its edges has its end nodes strictly on opposite sides; valid indices, no repetition -/
+def CrossExact (c : K) (Z : List (K × K)) (FE : Table) (N : List Nat) (faces : List Int) : Prop :=
+  faces.Nodup ∧
+  (∀ f, f < FE.length → (faceHas (strictlyOpposite c) Z FE N f = true ↔ Int.ofNat f ∈ faces)) ∧
+  (∀ g ∈ faces, 0 ≤ g ∧ g.toNat < FE.length)
+
+instance (c : K) (Z FE N faces) : Decidable (CrossExact c Z FE N faces) := by
+  unfold CrossExact; infer_instance
+
 end LatSpec
 
 /-! ## 6. the travelling state: which variables of the source's dataset reach the subset
